@@ -133,6 +133,67 @@ static bool parseEntry(const std::string& tok, Tpl& t) {
 	return true;
 }
 
+static CK_ULONG handleArg(const std::string& s);
+
+// ---- mechanisms ------------------------------------------------------------------------------------
+// <mechhex>            no parameter
+// <mechhex>:<hex>      raw parameter bytes
+// <mechhex>:gcm(iv,aad,tagbits) | ctr(bits,cb16) | oaep(hash,mgf,labelhex) | pss(hash,mgf,slen) | ecdh(kdf,pubhex)
+//            | str(hex) (CK_KEY_DERIVATION_STRING_DATA) | cbcd(ivhex,datahex) (CK_xxx_CBC_ENCRYPT_DATA_PARAMS) | obj(handle)
+struct Mech {
+	CK_MECHANISM m; Bytes raw, b1, b2; CK_GCM_PARAMS gcm; CK_AES_CTR_PARAMS ctr; CK_RSA_PKCS_OAEP_PARAMS oaep; CK_RSA_PKCS_PSS_PARAMS pss;
+	CK_ECDH1_DERIVE_PARAMS ecdh; CK_KEY_DERIVATION_STRING_DATA str; CK_AES_CBC_ENCRYPT_DATA_PARAMS cbca; CK_DES_CBC_ENCRYPT_DATA_PARAMS cbcd; CK_OBJECT_HANDLE obj;
+};
+static std::vector<std::string> splitArgs(const std::string& s) { std::vector<std::string> v; std::stringstream ss(s); std::string e; while (std::getline(ss, e, ',')) v.push_back(e); if (!s.empty() && s.back() == ',') v.push_back(""); return v; }
+static CK_ULONG handleArg(const std::string& s);
+static bool parseMech(const std::string& tok, Mech& M) {
+	memset(&M.m, 0, sizeof(M.m));
+	size_t c = tok.find(':');
+	M.m.mechanism = strtoul(tok.substr(0, c).c_str(), NULL, 16);
+	M.m.pParameter = NULL_PTR; M.m.ulParameterLen = 0;
+	if (c == std::string::npos) return true;
+	std::string p = tok.substr(c + 1);
+	size_t par = p.find('(');
+	if (par == std::string::npos) { if (!unhex(p, M.raw)) return false; M.m.pParameter = M.raw.empty() ? (CK_VOID_PTR)"" : M.raw.data(); M.m.ulParameterLen = M.raw.size(); return true; }
+	std::string kind = p.substr(0, par); std::vector<std::string> a = splitArgs(p.substr(par + 1, p.size() - par - 2));
+	auto U = [&](size_t i) { return i < a.size() ? strtoul(a[i].c_str(), NULL, 0) : 0UL; };
+	if (kind == "gcm") { unhex(a.size() > 0 ? a[0] : ".", M.b1); unhex(a.size() > 1 ? a[1] : ".", M.b2); memset(&M.gcm, 0, sizeof(M.gcm));
+		M.gcm.pIv = M.b1.empty() ? (CK_BYTE_PTR)"" : M.b1.data(); M.gcm.ulIvLen = M.b1.size(); M.gcm.ulIvBits = M.b1.size() * 8;
+		M.gcm.pAAD = M.b2.empty() ? NULL_PTR : M.b2.data(); M.gcm.ulAADLen = M.b2.size(); M.gcm.ulTagBits = U(2);
+		M.m.pParameter = &M.gcm; M.m.ulParameterLen = sizeof(M.gcm); }
+	else if (kind == "ctr") { memset(&M.ctr, 0, sizeof(M.ctr)); M.ctr.ulCounterBits = U(0); unhex(a.size() > 1 ? a[1] : ".", M.b1); M.b1.resize(16, 0); memcpy(M.ctr.cb, M.b1.data(), 16);
+		M.m.pParameter = &M.ctr; M.m.ulParameterLen = sizeof(M.ctr); }
+	else if (kind == "oaep") { memset(&M.oaep, 0, sizeof(M.oaep)); M.oaep.hashAlg = strtoul(a[0].c_str(), NULL, 16); M.oaep.mgf = U(1); M.oaep.source = CKZ_DATA_SPECIFIED;
+		unhex(a.size() > 2 ? a[2] : ".", M.b1); M.oaep.pSourceData = M.b1.empty() ? NULL_PTR : M.b1.data(); M.oaep.ulSourceDataLen = M.b1.size();
+		M.m.pParameter = &M.oaep; M.m.ulParameterLen = sizeof(M.oaep); }
+	else if (kind == "pss") { memset(&M.pss, 0, sizeof(M.pss)); M.pss.hashAlg = strtoul(a[0].c_str(), NULL, 16); M.pss.mgf = U(1); M.pss.sLen = U(2);
+		M.m.pParameter = &M.pss; M.m.ulParameterLen = sizeof(M.pss); }
+	else if (kind == "ecdh") { memset(&M.ecdh, 0, sizeof(M.ecdh)); M.ecdh.kdf = U(0); unhex(a.size() > 1 ? a[1] : ".", M.b1); M.ecdh.pPublicData = M.b1.empty() ? NULL_PTR : M.b1.data(); M.ecdh.ulPublicDataLen = M.b1.size();
+		M.m.pParameter = &M.ecdh; M.m.ulParameterLen = sizeof(M.ecdh); }
+	else if (kind == "str") { unhex(a.size() > 0 ? a[0] : ".", M.b1); M.str.pData = M.b1.empty() ? (CK_BYTE_PTR)"" : M.b1.data(); M.str.ulLen = M.b1.size(); M.m.pParameter = &M.str; M.m.ulParameterLen = sizeof(M.str); }
+	else if (kind == "cbcd") { unhex(a.size() > 0 ? a[0] : ".", M.b1); unhex(a.size() > 1 ? a[1] : ".", M.b2);
+		if (M.b1.size() == 16) { memcpy(M.cbca.iv, M.b1.data(), 16); M.cbca.pData = M.b2.empty() ? (CK_BYTE_PTR)"" : M.b2.data(); M.cbca.length = M.b2.size(); M.m.pParameter = &M.cbca; M.m.ulParameterLen = sizeof(M.cbca); }
+		else { M.b1.resize(8, 0); memcpy(M.cbcd.iv, M.b1.data(), 8); M.cbcd.pData = M.b2.empty() ? (CK_BYTE_PTR)"" : M.b2.data(); M.cbcd.length = M.b2.size(); M.m.pParameter = &M.cbcd; M.m.ulParameterLen = sizeof(M.cbcd); } }
+	else if (kind == "obj") { M.obj = handleArg(a.size() ? a[0] : "0"); M.m.pParameter = &M.obj; M.m.ulParameterLen = sizeof(M.obj); }
+	else return false;
+	return true;
+}
+// output buffer argument: n (NULL pointer) | <size>
+struct OutBuf { bool null; CK_ULONG cap; Bytes b; CK_ULONG len; static const size_t GUARD = 64;
+	OutBuf(const std::string& s) { null = (s == "n"); cap = null ? 0 : strtoul(s.c_str(), NULL, 0); b.assign(cap + GUARD, 0xA5); len = cap; }
+	CK_BYTE_PTR ptr() { return null ? NULL_PTR : b.data(); }
+	std::string report(CK_RV rv) {   // " <len> <data|-> [!OVERRUN]"
+		std::ostringstream os; os << " " << (unsigned long)len;
+		bool overrun = false; if (!null) for (size_t k = cap; k < cap + GUARD; k++) if (b[k] != 0xA5) overrun = true;
+		size_t wrote = 0; if (!null) for (size_t k = 0; k < cap; k++) if (b[k] != 0xA5) wrote = k + 1;
+		if (!null && rv == CKR_OK && len <= cap) os << " " << hex(b.data(), len);
+		else if (wrote) os << " W" << hex(b.data(), wrote);
+		else os << " -";
+		if (overrun) os << " !OVERRUN";
+		return os.str(); }
+};
+static Bytes dataArg(const std::string& s, bool* isNull) { Bytes b; *isNull = (s == "-"); if (!*isNull) unhex(s, b); return b; }
+
 static std::string labelOf(CK_SESSION_HANDLE hs, CK_OBJECT_HANDLE ho, CK_RV* prv) {
 	unsigned char buf[512]; CK_ATTRIBUTE a = { CKA_LABEL, buf, sizeof(buf) };
 	CK_RV rv = C_GetAttributeValue(hs, ho, &a, 1);
@@ -148,7 +209,7 @@ static void run(const std::vector<std::string>& t) {
 	auto H = [&](size_t i) { return i < t.size() ? handleArg(t[i]) : 0UL; };
 	auto N = [&](size_t i) { return i < t.size() ? strtoul(t[i].c_str(), NULL, 0) : 0UL; };
 
-	if (op == "nop") { fprintf(out, "= 0\n"); }
+	if (op == "nop" || op == "cfgmechs") { fprintf(out, "= 0\n"); }
 	else if (op == "wipe" || op == "snapshot" || op == "restore") {
 		// token-directory management between C_Finalize and C_Initialize (many short traces in one process)
 		const char* td = getenv("VERIF_TOKENDIR");
@@ -299,6 +360,85 @@ static void run(const std::vector<std::string>& t) {
 		fprintf(out, "\n");
 	}
 	else if (op == "findfinal") { CK_ULONG h = H(1); fprintf(out, "= %lu %lu\n", C_FindObjectsFinal(h), h); }
+	else if (op == "mechlist") {
+		CK_SLOT_ID sl = slotArg(t[1]); CK_ULONG n = 0; CK_RV rv = C_GetMechanismList(sl, NULL_PTR, &n);
+		std::vector<CK_MECHANISM_TYPE> v(n + 4); CK_ULONG n2 = n + 4; if (rv == CKR_OK) rv = C_GetMechanismList(sl, v.data(), &n2);
+		fprintf(out, "= %lu %lu %lu", rv, sl, rv == CKR_OK ? n2 : 0UL); if (rv == CKR_OK) for (CK_ULONG i = 0; i < n2; i++) fprintf(out, " %lx", v[i]); fprintf(out, "\n");
+	}
+	else if (op == "mechinfo") {
+		CK_SLOT_ID sl = slotArg(t[1]); CK_MECHANISM_INFO mi; memset(&mi, 0, sizeof(mi)); CK_RV rv = C_GetMechanismInfo(sl, strtoul(t[2].c_str(), NULL, 16), &mi);
+		if (rv == CKR_OK) fprintf(out, "= %lu %lu %lu %lu %lx\n", rv, sl, mi.ulMinKeySize, mi.ulMaxKeySize, mi.flags); else fprintf(out, "= %lu %lu\n", rv, sl);
+	}
+	else if (op == "genkey") {      // genkey h mech tpl...
+		CK_ULONG h = H(1); Mech M; Tpl tp; if (!parseMech(t[2], M) || !parseTplTokens(t, 3, tp)) { fprintf(out, "= BADOP\n"); return; }
+		CK_OBJECT_HANDLE hk = 0; CK_ATTRIBUTE dummyA; CK_RV rv = C_GenerateKey(h, &M.m, tp.a.empty() ? &dummyA : tp.a.data(), tp.a.size(), &hk);
+		if (rv == CKR_OK) { res.push_back(hk); note(hk); }
+		fprintf(out, "= %lu %lu %lu\n", rv, h, rv == CKR_OK ? hk : 0UL);
+	}
+	else if (op == "genpair") {     // genpair h mech pubtpl... / privtpl...
+		CK_ULONG h = H(1); Mech M; Tpl tp1, tp2; if (!parseMech(t[2], M)) { fprintf(out, "= BADOP\n"); return; }
+		size_t i = 3; for (; i < t.size() && t[i] != "/"; i++) if (!parseEntry(t[i], tp1)) { fprintf(out, "= BADOP\n"); return; }
+		for (i++; i < t.size(); i++) if (!parseEntry(t[i], tp2)) { fprintf(out, "= BADOP\n"); return; }
+		CK_OBJECT_HANDLE h1 = 0, h2 = 0; CK_ATTRIBUTE dummyA;
+		CK_RV rv = C_GenerateKeyPair(h, &M.m, tp1.a.empty() ? &dummyA : tp1.a.data(), tp1.a.size(), tp2.a.empty() ? &dummyA : tp2.a.data(), tp2.a.size(), &h1, &h2);
+		if (rv == CKR_OK) { res.push_back(h1); res.push_back(h2); note(h1); note(h2); }
+		fprintf(out, "= %lu %lu %lu %lu\n", rv, h, rv == CKR_OK ? h1 : 0UL, rv == CKR_OK ? h2 : 0UL);
+	}
+	else if (op == "encinit" || op == "decinit" || op == "siginit" || op == "verinit") {   // xinit h mech key
+		CK_ULONG h = H(1), k = H(3); Mech M; if (!parseMech(t[2], M)) { fprintf(out, "= BADOP\n"); return; }
+		CK_RV rv = op == "encinit" ? C_EncryptInit(h, &M.m, k) : op == "decinit" ? C_DecryptInit(h, &M.m, k) : op == "siginit" ? C_SignInit(h, &M.m, k) : C_VerifyInit(h, &M.m, k);
+		fprintf(out, "= %lu %lu %lu\n", rv, h, k);
+	}
+	else if (op == "diginit") { CK_ULONG h = H(1); Mech M; if (!parseMech(t[2], M)) { fprintf(out, "= BADOP\n"); return; } fprintf(out, "= %lu %lu\n", C_DigestInit(h, &M.m), h); }
+	else if (op == "enc" || op == "dec" || op == "sign" || op == "digest" || op == "encupd" || op == "decupd") {   // op h data outbuf
+		CK_ULONG h = H(1); bool dn; Bytes d = dataArg(t[2], &dn); OutBuf ob(t[3]);
+		CK_BYTE_PTR dp = dn ? NULL_PTR : (d.empty() ? (CK_BYTE_PTR)"" : d.data());
+		CK_RV rv = op == "enc" ? C_Encrypt(h, dp, d.size(), ob.ptr(), &ob.len) : op == "dec" ? C_Decrypt(h, dp, d.size(), ob.ptr(), &ob.len)
+			: op == "sign" ? C_Sign(h, dp, d.size(), ob.ptr(), &ob.len) : op == "digest" ? C_Digest(h, dp, d.size(), ob.ptr(), &ob.len)
+			: op == "encupd" ? C_EncryptUpdate(h, dp, d.size(), ob.ptr(), &ob.len) : C_DecryptUpdate(h, dp, d.size(), ob.ptr(), &ob.len);
+		fprintf(out, "= %lu %lu%s\n", rv, h, ob.report(rv).c_str());
+	}
+	else if (op == "encfinal" || op == "decfinal" || op == "sigfinal" || op == "digfinal") {   // op h outbuf
+		CK_ULONG h = H(1); OutBuf ob(t[2]);
+		CK_RV rv = op == "encfinal" ? C_EncryptFinal(h, ob.ptr(), &ob.len) : op == "decfinal" ? C_DecryptFinal(h, ob.ptr(), &ob.len)
+			: op == "sigfinal" ? C_SignFinal(h, ob.ptr(), &ob.len) : C_DigestFinal(h, ob.ptr(), &ob.len);
+		fprintf(out, "= %lu %lu%s\n", rv, h, ob.report(rv).c_str());
+	}
+	else if (op == "sigupd" || op == "verupd" || op == "digupd") {   // op h data
+		CK_ULONG h = H(1); bool dn; Bytes d = dataArg(t[2], &dn); CK_BYTE_PTR dp = dn ? NULL_PTR : (d.empty() ? (CK_BYTE_PTR)"" : d.data());
+		CK_RV rv = op == "sigupd" ? C_SignUpdate(h, dp, d.size()) : op == "verupd" ? C_VerifyUpdate(h, dp, d.size()) : C_DigestUpdate(h, dp, d.size());
+		fprintf(out, "= %lu %lu\n", rv, h);
+	}
+	else if (op == "digkey") { CK_ULONG h = H(1), k = H(2); fprintf(out, "= %lu %lu %lu\n", C_DigestKey(h, k), h, k); }
+	else if (op == "verify") {   // verify h data sig
+		CK_ULONG h = H(1); bool dn, sn; Bytes d = dataArg(t[2], &dn), sg = dataArg(t[3], &sn);
+		CK_RV rv = C_Verify(h, dn ? NULL_PTR : (d.empty() ? (CK_BYTE_PTR)"" : d.data()), d.size(), sn ? NULL_PTR : (sg.empty() ? (CK_BYTE_PTR)"" : sg.data()), sg.size());
+		fprintf(out, "= %lu %lu\n", rv, h);
+	}
+	else if (op == "verfinal") { CK_ULONG h = H(1); bool sn; Bytes sg = dataArg(t[2], &sn);
+		fprintf(out, "= %lu %lu\n", C_VerifyFinal(h, sn ? NULL_PTR : (sg.empty() ? (CK_BYTE_PTR)"" : sg.data()), sg.size()), h); }
+	else if (op == "wrap") {     // wrap h mech wrappingKey key outbuf
+		CK_ULONG h = H(1), wk = H(3), k = H(4); Mech M; if (!parseMech(t[2], M)) { fprintf(out, "= BADOP\n"); return; } OutBuf ob(t[5]);
+		CK_RV rv = C_WrapKey(h, &M.m, wk, k, ob.ptr(), &ob.len);
+		fprintf(out, "= %lu %lu %lu %lu%s\n", rv, h, wk, k, ob.report(rv).c_str());
+	}
+	else if (op == "unwrap") {   // unwrap h mech unwrappingKey wrappedhex tpl...
+		CK_ULONG h = H(1), uk = H(3); Mech M; Tpl tp; bool dn; Bytes d = dataArg(t[4], &dn);
+		if (!parseMech(t[2], M) || !parseTplTokens(t, 5, tp)) { fprintf(out, "= BADOP\n"); return; }
+		CK_OBJECT_HANDLE hk = 0; CK_ATTRIBUTE dummyA;
+		CK_RV rv = C_UnwrapKey(h, &M.m, uk, dn ? NULL_PTR : (d.empty() ? (CK_BYTE_PTR)"" : d.data()), d.size(), tp.a.empty() ? &dummyA : tp.a.data(), tp.a.size(), &hk);
+		if (rv == CKR_OK) { res.push_back(hk); note(hk); }
+		fprintf(out, "= %lu %lu %lu %lu\n", rv, h, uk, rv == CKR_OK ? hk : 0UL);
+	}
+	else if (op == "derive") {   // derive h mech baseKey tpl...
+		CK_ULONG h = H(1), bk = H(3); Mech M; Tpl tp; if (!parseMech(t[2], M) || !parseTplTokens(t, 4, tp)) { fprintf(out, "= BADOP\n"); return; }
+		CK_OBJECT_HANDLE hk = 0; CK_ATTRIBUTE dummyA;
+		CK_RV rv = C_DeriveKey(h, &M.m, bk, tp.a.empty() ? &dummyA : tp.a.data(), tp.a.size(), &hk);
+		if (rv == CKR_OK) { res.push_back(hk); note(hk); }
+		fprintf(out, "= %lu %lu %lu %lu\n", rv, h, bk, rv == CKR_OK ? hk : 0UL);
+	}
+	else if (op == "random") { CK_ULONG h = H(1); CK_ULONG n = N(2); Bytes b(n + 8, 0xA5); CK_RV rv = C_GenerateRandom(h, b.data(), n); fprintf(out, "= %lu %lu %lu\n", rv, h, n); }
+	else if (op == "seed") { CK_ULONG h = H(1); bool dn; Bytes d = dataArg(t[2], &dn); fprintf(out, "= %lu %lu\n", C_SeedRandom(h, d.empty() ? (CK_BYTE_PTR)"" : d.data(), d.size()), h); }
 	else fprintf(out, "= BADOP\n");
 }
 
